@@ -345,6 +345,78 @@ def r_who_write_semaphore(ctx: Ctx, rule="R01.4"):
         rep.ob(rule, "the acquire coroutine is awaited", awaited, node=e.node)
 
 
+def r_limit_is_assigned_value(ctx: Ctx, rule: str):
+    """The limit put in force is the value that was assigned - for EVERY value, 0 included.  The validated setter works on its
+    parameter as given: the parameter is not replaced by something computed from its truth value (`value or inf`, `x if value else y`
+    turn pool_size=0 - "nothing may start" - into no limit at all); the constructors hand their `pool_size` argument on unchanged."""
+    rep = ctx.rep
+    rep.rule(rule, "LIMIT-IS-THE-ASSIGNED-VALUE: in the pool_size setter the parameter is not re-bound (except to fill in a default under "
+                   "an `is None` test); a re-binding that goes by the parameter's truth value is a violation (0 is a valid size), any other is "
+                   "inconclusive; the constructors pass their pool_size argument to the setter / the base constructor unchanged")
+    setters = ctx.pool_setters("pool_size")
+    rep.floor(rule, "pool_size setter", len(setters), 1)
+
+    def truthy_use(e: ast.AST, name: str) -> bool:
+        """does e choose its value by the truth value of `name`?"""
+        for x in ast.walk(e):
+            if isinstance(x, ast.BoolOp) and any(isinstance(v, ast.Name) and v.id == name for v in x.values[:-1]):
+                return True
+            if isinstance(x, ast.IfExp):
+                t = x.test
+                while isinstance(t, ast.UnaryOp) and isinstance(t.op, ast.Not):
+                    t = t.operand
+                if isinstance(t, ast.Name) and t.id == name:
+                    return True
+        return False
+
+    def check_param(f: FuncInfo, vp: str) -> None:
+        sc = ctx.an.scope(f)
+        hows = sc.defs.get(vp, [])
+        if not hows:
+            rep.ob(rule, f"`{vp}` reaches the store as it was passed", True, func=f, construct=f"{f.short}({vp})")
+            return
+        for h in hows:
+            val = h[1] if h[0] == "assign" else (h[2] if h[0] == "ann" else None)
+            stores = ctx.nodes(f, lambda n: n.op in ("assign", "aug") and n.ast is not None and any(isinstance(t_, ast.Name) and t_.id == vp and isinstance(t_.ctx, ast.Store) for t_ in ast.walk(n.ast)))
+            site = stores[0] if stores else None
+            if val is not None and truthy_use(val, vp):
+                rep.ob(rule, f"`{vp}` reaches the store as it was passed", False, func=f, node=site, construct=site if site is not None else f"{vp} = {ast.unparse(val)}",
+                       detail=f"`{vp} = {ast.unparse(val)}` replaces every falsy size - 0 included - so a pool of size 0 is not limited at all")
+                continue
+            # filling in a default for None is fine: `if value is None: value = inf`
+            guarded = False
+            if site is not None and val is not None:
+                tests = ctx.nodes(f, lambda n: n.op == "test" and isinstance(n.ast, ast.Compare) and len(n.ast.ops) == 1 and isinstance(n.ast.ops[0], ast.Is)
+                                  and isinstance(n.ast.left, ast.Name) and n.ast.left.id == vp and isinstance(n.ast.comparators[0], ast.Constant) and n.ast.comparators[0].value is None)
+                g = ctx.an.cfg(f)
+                for t in tests:
+                    no = [s_ for s_, lab in t.succ if lab[0] == "F"]
+                    if site not in reach([g.entry], lambda a, b, lab: not (a is t and lab[0] == "T")):
+                        guarded = True
+            rep.ob(rule, f"`{vp}` reaches the store as it was passed", True if guarded else None, func=f, node=site, construct=site if site is not None else f"{vp} re-bound",
+                   detail="" if guarded else "the parameter is re-bound: cannot tell whether every size (0 included) survives")
+
+    for f in setters:
+        vp = [p for p in f.param_names() if p != "self"][0]
+        check_param(f, vp)
+    n_ctor = 0
+    for f in ctx.pool_funcs("__init__"):
+        if "pool_size" not in f.param_names():
+            continue
+        n_ctor += 1
+        check_param(f, "pool_size")
+        if f.cls is not ctx.base:
+            # handed to the base constructor unchanged
+            sups = [n for n in ctx.nodes(f, lambda n: n.op == "call" and isinstance(n.ast.func, ast.Attribute) and n.ast.func.attr == "__init__")]
+            ok = None
+            for c in ctx.distinct_sites(sups):
+                kws = {k.arg: k.value for k in c.ast.keywords if k.arg}
+                v = kws.get("pool_size", c.ast.args[0] if c.ast.args else None)
+                ok = isinstance(v, ast.Name) and v.id == "pool_size"
+            rep.ob(rule, "the subclass constructor passes its pool_size argument on unchanged", ok, func=f, construct="super().__init__(pool_size=...)")
+    rep.floor(rule, "constructors taking pool_size", n_ctor, 2)
+
+
 def r_atomic_slot_registry(ctx: Ctx, rule="R01.5"):
     rep = ctx.rep
     rep.rule(rule, "ATOMIC(registry removal, release) in _task_ending and ATOMIC(acquire completed, registry insert) in _start_task "
